@@ -40,6 +40,8 @@ type Server struct {
 	// until the blob is mounted (POST ?mount=) or uploaded there
 	OtherRepo map[string]bool
 
+	// Down: the registry answers every request with 503 (an outage that lasts as long as the harness says)
+	Down bool
 	// OnNetPoint, if set, is called before every request and every body read while faults are possible (the
 	// harness uses it to let the client go away exactly there: one deviation wherever in the transfer it is)
 	OnNetPoint func(label string)
@@ -208,6 +210,9 @@ func (s *Server) RoundTrip(req *http.Request) (*http.Response, error) {
 	}
 	if err := req.Context().Err(); err != nil {
 		return nil, context.Cause(req.Context())
+	}
+	if s.Down && !s.NoFaultsLeft {
+		return s.errJSON(req, 503, "UNAVAILABLE", "registry down"), nil
 	}
 	path := req.URL.Path
 	isBlobGet := req.Method == "GET" && strings.Contains(path, "/blobs/") && !strings.Contains(path, "/uploads/")
